@@ -94,6 +94,57 @@ def drop_program(rng):
     return text, expected
 
 
+def generic_drop_program(rng):
+    """Generic functions ignoring (some of) their arguments, with type variables of different
+    copy/drop bounds at the same parameter index, optionally behind comptime parameters (which move
+    the type variables' indices under partial monomorphisation); all compiled in one module, called
+    in random order.  One explicit drop is expected per ignored argument of an *affine* (droppable,
+    not copyable) type variable or array, none for copyable ones.  -> (text, expected drop count)"""
+    L = ["from guppylang import guppy", "from guppylang.std.builtins import owned, array, comptime, nat", "",
+         'TCD = guppy.type_var("TCD", copyable=True, droppable=True)',
+         'TD = guppy.type_var("TD", copyable=False, droppable=True)',
+         'UCD = guppy.type_var("UCD", copyable=True, droppable=True)',
+         'UD = guppy.type_var("UD", copyable=False, droppable=True)', ""]
+    nf = rng.randint(2, 4)
+    expected = 0
+    calls = []
+    for j in range(nf):
+        k = rng.randint(1, 3)
+        kinds = [rng.choice(["cd", "d"]) for _ in range(k)]
+        tvs = []
+        for i, kd in enumerate(kinds):
+            tvs.append({"cd": ["TCD", "UCD"], "d": ["TD", "UD"]}[kd][i % 2] if i < 2 else {"cd": "TCD", "d": "TD"}[kd])
+        ps = [f"p{i}: {tv}" + (" @owned" if kd == "d" else "") for i, (tv, kd) in enumerate(zip(tvs, kinds))]
+        pre = []
+        if rng.random() < 0.4:
+            pos = rng.randint(0, len(ps))
+            ps.insert(pos, "kc: int @comptime")
+            pre.append(("kc", pos))
+        used = rng.randrange(k) if rng.random() < 0.4 else None
+        ret = tvs[used] if used is not None else "int"
+        body = f"    return p{used}" if used is not None else "    return 1"
+        L += ["@guppy", f"def ign{j}({', '.join(ps)}) -> {ret}:", body, ""]
+        # within one function two parameters of the same type variable must get the same type
+        conc = {}
+        args = []
+        for i, (tv, kd) in enumerate(zip(tvs, kinds)):
+            if tv not in conc:
+                conc[tv] = rng.choice(["7", "1.5", "True"]) if kd == "cd" else rng.choice(["array(1, 2)", "array(1.5, 2.5, 3.5)"])
+            args.append(conc[tv])
+            if kd == "d" and i != used:
+                expected += 1
+        for name_, pos in pre:
+            args.insert(pos, str(rng.randint(0, 9)))
+        calls.append((j, args, used is not None and kinds[used] == "d"))
+    rng.shuffle(calls)
+    L += ["@guppy", "def main() -> None:"]
+    for j, args, returns_affine in calls:
+        L.append(f"    r{j} = ign{j}({', '.join(args)})")
+        if returns_affine:
+            expected += 1  # the returned affine value is abandoned by main
+    return "\n".join(L) + "\n", expected
+
+
 def count_drops(pkg):
     n = 0
     for h in pkg.modules:
@@ -161,10 +212,14 @@ def run_case(ctx, rng, idx, params, tier):
                                       "to_hugr": str(hb)}})
     # drop insertion
     if idx % 2 == 0:
-        text, expected = drop_program(rng)
+        if idx % 4 == 0:
+            text, expected = drop_program(rng)
+        else:
+            text, expected = generic_drop_program(rng)
+            counters["generic_drop_programs"] = 1
         try:
             ld = ctx.load(text, "drops")
-            pkg = ld.main.compile_function()
+            pkg = ld.main.compile_function() if "def ign0" not in text else ld.main.compile()
             n = count_drops_model(pkg)
             e1, e2 = ctx.validate_both(pkg)
             counters["drop_programs"] = 1
